@@ -271,6 +271,44 @@ type Options struct {
 	SkipResources bool
 }
 
+var pristineSystem map[postscript.Name]bool
+
+// StateWithSystem is State plus a section listing the entries of systemdict
+// that a pristine interpreter does not have (definitions made while
+// systemdict was the current dictionary, e.g. inside eexec).
+func StateWithSystem(intp *postscript.Interpreter) string {
+	initNames()
+	if pristineSystem == nil {
+		m := map[postscript.Name]bool{}
+		for k := range postscript.NewInterpreter().SystemDict {
+			m[k] = true
+		}
+		pristineSystem = m
+	}
+	extra := postscript.Dict{}
+	for k, v := range intp.SystemDict {
+		if !pristineSystem[k] {
+			extra[k] = v
+		}
+	}
+	// render the additions through a scratch interpreter view: they are put
+	// in front of the operand stack under a marker name
+	save := intp.Stack
+	defer func() { intp.Stack = save }()
+	var keys []string
+	for k := range extra {
+		keys = append(keys, string(k))
+	}
+	sort.Strings(keys)
+	stack := []postscript.Object{}
+	for _, k := range keys {
+		stack = append(stack, postscript.Name("systemdict+"+k), extra[postscript.Name(k)])
+	}
+	stack = append(stack, postscript.Name("end-of-systemdict-additions"))
+	intp.Stack = append(stack, save...)
+	return State(intp)
+}
+
 // State renders the interpreter state in the format of psref.Machine.State.
 func State(intp *postscript.Interpreter) string {
 	initNames()
